@@ -353,6 +353,31 @@ static void vh_fatal(int sig)
 	_exit(3);
 }
 
+/* Per-case hang detector.  Cases normally take micro- to milliseconds; a case
+ * that is still running after vh_case_timeout seconds is reported as
+ * "hang:<case key>" with its replay arguments.  The driver re-runs exactly
+ * that case with four times the budget and only then calls it a violation
+ * (otherwise the run is inconclusive). */
+static unsigned vh_case_timeout = 30;
+static void vh_alarm(int sig)
+{
+	(void)sig;
+	if (vh_in_fatal)
+		_exit(4);
+	vh_in_fatal = 1;
+	char key[256];
+	snprintf(key, sizeof(key), "hang:%s", vh_cur_key);
+	vh_violation(key, vh_cur_replay, "case still running after %u s (normal cases take milliseconds): %s",
+		     vh_case_timeout, vh_cur_case);
+	vh_write_result(1);
+	_exit(3);
+}
+static inline void vh_case_budget(unsigned seconds)
+{
+	vh_case_timeout = seconds;
+	alarm(seconds);
+}
+
 static void vh_init(int argc, char **argv, const char *stage)
 {
 	vh_opt.stage = stage;
@@ -398,6 +423,10 @@ static void vh_init(int argc, char **argv, const char *stage)
 	sigaction(SIGFPE, &sa, NULL);
 	sigaction(SIGBUS, &sa, NULL);
 	sigaction(SIGILL, &sa, NULL);
+	sa.sa_handler = vh_alarm;
+	sigaction(SIGALRM, &sa, NULL);
+	if (getenv("VH_CASE_TIMEOUT"))
+		vh_case_timeout = (unsigned)atoi(getenv("VH_CASE_TIMEOUT"));
 	snprintf(vh_cur_key, sizeof(vh_cur_key), "startup");
 	snprintf(vh_cur_case, sizeof(vh_cur_case), "(before first case)");
 }
@@ -407,6 +436,7 @@ static void vh_init(int argc, char **argv, const char *stage)
 static inline void vh_case_key(const char *key)
 {
 	snprintf(vh_cur_key, sizeof(vh_cur_key), "%s", key);
+	alarm(vh_case_timeout);
 }
 static void vh_case_desc(const char *fmt, ...)
 {
@@ -425,6 +455,7 @@ static void vh_case_replay(const char *fmt, ...)
 
 static int vh_finish(void)
 {
+	alarm(0);
 	vh_write_result(0);
 	return 0;
 }
